@@ -339,6 +339,13 @@ int main(int argc, char **argv)
             continue;
         } else if (!strcmp(opname, "quiesce")) { jbegin("quiesce"); jint("lv", live_objs); jend(); }
         else if (!strcmp(opname, "ard_clear")) do_clear();
+        else if (!strcmp(opname, "ard_set_counter_size")) {
+            int o = (int)argi("o", 0);
+            long size = argi("size", 16);
+            jbegin("ard_set_counter_size"); echo_common(); jint("size", size);
+            jint("ret", ctrsel(slots[o])->setCounterSize((size_t)size));
+            log_alloc(0); jend();
+        }
         else if (!strncmp(opname, "ks_", 3)) do_ks();
         else if (!strncmp(opname, "mk_", 3)) do_mk();
         else if (!strncmp(opname, "ctr_", 4)) do_ctr();
